@@ -12,6 +12,7 @@ import KinModel.Internalize
 import KinModel.Lemmas.C16Table
 import KinModel.Lemmas.C16Inv
 import KinModel.Lemmas.C16Heaps
+import KinModel.Lemmas.C16Rerun
 namespace KinModel.RefName
 
 /-! ### the resolver's loops end for every input (the repair of #18 made this provable) -/
@@ -480,6 +481,43 @@ theorem components_changed_only_by_own_kind (h : Heap) (s : St) (hd : internaliz
 theorem empty_refs_stay_empty (h : Heap) (s : St) (hd : internalize h = .done s) (c : Nat) (h0 : origRef h c = []) :
     s.refs[c]! = [] := run_invEmpty h s hd c h0
 
+/-! ### reuse: a second call on the same document, and documents without external references
+(Lemmas/C16Rerun.lean: one mutual fuel induction that follows the FLOW of the parent-is-external flag — on texts that are
+all internal every add<Kind>ToSpec call returns false and every `isExternalRef(ops.Ref, false)` is false, so the flag
+handed down stays false) -/
+
+/-- **A second call changes nothing.** `s` is ANY state (in particular the final state of a first call) in which every
+reference text and every path-item text is internal — part (i) of the property, executable as `allIntB`. A further call of
+InternalizeRefs (visited sets reset by `doc.resetVisited()`, any fuel) that finishes adds no component, replaces none
+and renames nothing: every text is what it was, or cleared (a top-level component written in place). No hypothesis on
+the heap. -/
+theorem second_call_changes_nothing (h : Heap) (s : St) (hi : allIntB s = true) (n : Nat) (s2 : St)
+    (hr : internalizeM h n (rerunSt h s) = .ok ((), s2)) :
+    s2.comps = s.comps ∧ s2.hasComp = s.hasComp ∧ (∀ c : Nat, s2.refs[c]! = s.refs[c]! ∨ s2.refs[c]! = []) ∧
+    (∀ p : Nat, s2.pirefs[p]! = s.pirefs[p]! ∨ s2.pirefs[p]! = []) := by
+  have ha : AllInt (rerunSt h s) := allInt_of_B s hi
+  exact (quiet_internalizeM h n (rerunSt h s) () s2 ha hr).2
+
+/-- after the second call the texts are still all internal (so the statement iterates to any number of calls) -/
+theorem second_call_keeps_internal (h : Heap) (s : St) (hi : allIntB s = true) (n : Nat) (s2 : St)
+    (hr : internalizeM h n (rerunSt h s) = .ok ((), s2)) : AllInt s2 := by
+  have ha : AllInt (rerunSt h s) := allInt_of_B s hi
+  exact ha.of_rel (quiet_internalizeM h n (rerunSt h s) () s2 ha hr).2
+
+/-- **A document without external references is only inlined.** If every text of the loaded document is internal, the
+call adds no component and every text stays as loaded or is cleared. -/
+theorem internal_document_only_inlined (h : Heap) (s : St) (hd : internalize h = .done s)
+    (hi : allIntB (initSt h) = true) :
+    s.comps = (initSt h).comps ∧ ∀ c : Nat, s.refs[c]! = origRef h c ∨ s.refs[c]! = [] := by
+  unfold internalize at hd
+  split at hd
+  · rename_i u s' hrun
+    cases hd
+    have r := (quiet_internalizeM h _ (initSt h) u s (allInt_of_B _ hi) hrun).2
+    exact ⟨r.1, r.2.2.1⟩
+  · cases hd
+  · cases hd
+
 /-- **The executable spec holds on the final state of every run outside the exclusion classes.** Full-strength statement
 (false: the witnesses below): `internalize h = .done s → specB h s = true`. What holds: if none of the decidable exclusion
 predicates — NameCollision (F-C16-1), SelfRefComponent (F-C16-3), StaleInternalRef (F-C16-5), UnwalkedExample (F-C16-7),
@@ -561,6 +599,22 @@ theorem spec_of_hyps_partial (h : Heap) (s : St) (hd : internalize h = .done s) 
   simp only [Bool.and_eq_true, Bool.not_eq_true', Bool.not_eq_eq_eq_not, Bool.not_true] at hh
   obtain ⟨⟨⟨⟨⟨⟨⟨⟨⟨a1, a2⟩, a3⟩, a4⟩, a5⟩, a6⟩, a7⟩, a8⟩, a9⟩, a10⟩ := hh
   exact spec_holds_partial h s hd a1 a2 a3 a4 a5 a6 a7 a8 a9 a10
+
+/-- the arrays of texts keep the sizes of the heap's tables: `specB` speaks of every text of the final state -/
+theorem run_invSize (h : Heap) (s : St) (hd : internalize h = .done s) : InvSize h s :=
+  Reach.invariant (InvSize h) (invSize_step h) (internalize_reach h s hd) (invSize_init h)
+
+/-- where the property holds after the first call, every text of the final state is internal -/
+theorem spec_implies_all_internal (h : Heap) (s : St) (hd : internalize h = .done s) (hs : specB h s = true) :
+    allIntB s = true := allIntB_of_spec h s (run_invSize h s hd) hs
+
+/-- **Where the property holds after the first call, a second call changes nothing** (adds no component, replaces none,
+renames nothing; `second_call_changes_nothing` with its hypothesis discharged by the spec). -/
+theorem second_call_after_spec (h : Heap) (s : St) (hd : internalize h = .done s) (hs : specB h s = true)
+    (n : Nat) (s2 : St) (hr : internalizeM h n (rerunSt h s) = .ok ((), s2)) :
+    s2.comps = s.comps ∧ s2.hasComp = s.hasComp ∧ (∀ c : Nat, s2.refs[c]! = s.refs[c]! ∨ s2.refs[c]! = []) ∧
+    (∀ p : Nat, s2.pirefs[p]! = s.pirefs[p]! ∨ s2.pirefs[p]! = []) :=
+  second_call_changes_nothing h s (spec_implies_all_internal h s hd hs) n s2 hr
 
 /-- the exclusion classes are complete for the model: a finished run on which the spec fails is in one of them -/
 theorem spec_fails_only_in_a_class (h : Heap) (s : St) (hd : internalize h = .done s) (hf : specB h s = false) :
@@ -684,6 +738,33 @@ example : doneB hAbsoluteBackref (fun s => hypsB hAbsoluteBackref s && s.refs[2]
   decide +kernel
 example : doneB hPathItemChain (fun s => hypsB hPathItemChain s && s.visP.length == 3 &&
     s.refs[0]! == "#/components/responses/r".toList) = true := by decide +kernel
+
+/-- non-vacuity of `second_call_changes_nothing`: after the first call on a document with external references (components
+were added) all texts are internal, the second call finishes, and leaves texts and components exactly as they were -/
+example : doneB hSharedHeader (fun s => allIntB s && s.log.any (fun e => e.name?.isSome) &&
+    (match internalizeM hSharedHeader (budget hSharedHeader) (rerunSt hSharedHeader s) with
+     | .ok (_, s2) => s2.refs.toList == s.refs.toList && s2.comps.map (·.2.1) == s.comps.map (·.2.1)
+     | .error _ => false)) = true := by decide +kernel
+example : doneB hPathItemChain (fun s => allIntB s &&
+    (match internalizeM hPathItemChain (budget hPathItemChain) (rerunSt hPathItemChain s) with
+     | .ok (_, s2) => s2.refs.toList == s.refs.toList && s2.pirefs.toList == s.pirefs.toList
+     | .error _ => false)) = true := by decide +kernel
+/-- the hypothesis of `second_call_changes_nothing` is needed: started from a state with an external text (here: the
+loaded document itself), the call adds components and renames -/
+theorem witness_call_on_external_texts_changes :
+    allIntB (initSt hSharedHeader) = false ∧
+    doneB hSharedHeader (fun s => s.comps.length != (initSt hSharedHeader).comps.length &&
+      s.refs[1]! != (initSt hSharedHeader).refs[1]! && !(s.refs[1]!).isEmpty) = true := by decide +kernel
+/-- and it is not implied by the first call having finished: where that call leaves an external text (F-C16-7, the example
+of a parameter), `allIntB` fails on its final state (and `specB` with it) -/
+theorem witness_second_call_hypothesis : doneB hParamExample (fun s => !allIntB s && !specB hParamExample s) = true := by
+  decide +kernel
+/-- non-vacuity of `second_call_after_spec`: the spec holds after the first call and the second call finishes -/
+example : doneB hSharedHeader (fun s => specB hSharedHeader s &&
+    (match internalizeM hSharedHeader (budget hSharedHeader) (rerunSt hSharedHeader s) with
+     | .ok _ => true | .error _ => false)) = true := by decide +kernel
+/-- non-vacuity of `internal_document_only_inlined`: a document whose only reference is internal -/
+example : allIntB (initSt hEncHeaderInternal) = true ∧ doneB hEncHeaderInternal (fun _ => true) = true := by decide +kernel
 
 end Witnesses
 
